@@ -121,6 +121,7 @@ type Worker struct {
 	regions map[*ssa.BasicBlock]*regionInfo
 	id      int
 	paths   int
+	pathWall float64
 }
 
 func (w *Worker) noteUnknown(what string) {
@@ -215,7 +216,9 @@ func (w *Worker) loop(fn *ssa.Function) {
 			w.sh.mu.Unlock()
 			return
 		}
+		tp := time.Now()
 		alts := w.runPath(fn, prefix)
+		w.pathWall += time.Since(tp).Seconds()
 		w.sh.finish(alts)
 		w.paths++
 		if w.paths%3000 == 0 {
@@ -590,13 +593,20 @@ func exploreHarness(prog *ssa.Program, fn *ssa.Function, opt runOpts, known []kn
 				case <-time.After(3 * time.Second):
 					sh.mu.Lock()
 					q, qt := 0, 0.0
+					pw := 0.0
 					for _, w := range workers {
 						if w != nil && w.solver != nil {
 							q += w.solver.queries
 							qt += w.solver.timeS
+							pw -= w.solver.valueS
 						}
 					}
-					fmt.Fprintf(os.Stderr, "queries=%d solverTime=%.1f ", q, qt)
+					for _, w := range workers {
+						if w != nil {
+							pw += w.pathWall
+						}
+					}
+					fmt.Fprintf(os.Stderr, "queries=%d solverTime=%.1f pathWall=%.1f inflight=%d ", q, qt, pw, sh.inflight)
 					fmt.Fprintf(os.Stderr, "progress: paths=%d done=%d assumed=%d viol=%d queue=%d merges=%d branches=%d maxdepth=%d inconcl=%v\n", sh.stats.paths, sh.stats.done, sh.stats.assumed, sh.stats.violations, len(sh.work), sh.stats.merges, sh.stats.branches, sh.stats.maxDepth, sh.inconcl)
 					sh.mu.Unlock()
 				}
